@@ -50,6 +50,10 @@ CONSUMER_VALUES = {
                        {'DEEP_IN_APP_INCLUDE': '/x/inc1,/x/inc2'}),
     'IN_APP_EXCLUDE': ({'IN_APP_EXCLUDE': ['/x/app/ex1', '/x/app/ex2']}, {'IN_APP_EXCLUDE': '/x/app/ex1,/x/app/ex2'},
                        {'DEEP_IN_APP_EXCLUDE': '/x/app/ex1,/x/app/ex2'}),
+    'IN_APP_EXCLUDE_trailing_comma': ({'IN_APP_EXCLUDE': ['/x/app/ex1', '']}, {'IN_APP_EXCLUDE': '/x/app/ex1,'},
+                                      {'DEEP_IN_APP_EXCLUDE': '/x/app/ex1,'}),
+    'IN_APP_INCLUDE_empty': ({'IN_APP_INCLUDE': ['']}, {'IN_APP_INCLUDE': ''}, {'DEEP_IN_APP_INCLUDE': ''}),
+    'IN_APP_EXCLUDE_empty': ({'IN_APP_EXCLUDE': ['']}, {'IN_APP_EXCLUDE': ''}, {'DEEP_IN_APP_EXCLUDE': ''}),
     'AUTH_BASIC': ({'SERVICE_AUTH_PROVIDER': 'deep.api.auth.BasicAuthProvider', 'SERVICE_USERNAME': 'u',
                     'SERVICE_PASSWORD': 'p'},) * 2 + ({'DEEP_SERVICE_AUTH_PROVIDER': 'deep.api.auth.BasicAuthProvider',
                                                         'DEEP_SERVICE_USERNAME': 'u', 'DEEP_SERVICE_PASSWORD': 'p'},),
@@ -118,6 +122,20 @@ def consumer_case(case):
         fr = res.get('frames')
         ok = fr is not None and fr[0][0] is False and fr[1][0] is False and fr[2][0] is True
         return 'both_prefixes_are_excluded' if ok else 'frames %s' % res
+    if setting in ('IN_APP_EXCLUDE_trailing_comma', 'IN_APP_INCLUDE_empty', 'IN_APP_EXCLUDE_empty'):
+        pc['kind'] = 'app_frame'
+        pc['code']['APP_ROOT'] = '/x/app'
+        pc['paths'] = ['/x/app/ex1/m.py', '/x/app/ok/m.py', '/y/lib/m.py']
+        res = probe(pc)
+        fr = res.get('frames')
+        if fr is None:
+            return 'frames %s' % res
+        flags = [f[0] for f in fr]
+        if setting == 'IN_APP_EXCLUDE_trailing_comma':
+            return 'named_prefix_excluded_rest_of_root_app' if flags == [False, True, False] and fr[1][1] == '/x/app' \
+                else 'frames %s' % fr
+        want = 'only_root_is_app' if setting == 'IN_APP_INCLUDE_empty' else 'all_of_root_is_app'
+        return want if flags == [True, True, False] and fr[0][1] == '/x/app' and fr[2][1] is None else 'frames %s' % fr
     if setting == 'APP_ROOT':
         pc['kind'] = 'app_root'
         pc['paths'] = ['/x/app/m.py', '/y/m.py']
